@@ -107,7 +107,9 @@ class History:
         self.conf, self.ws = 100, 200
         self.claim = r.choice([200, 200, 230, 260])
         self.minconf = r.randint(1, 3)
-        self.nft = (r.choice([(0, 0), (NFTC, 0), (SFTPAY, 5), (self.pay_tok, 0)]), self.amount())
+        self.nft = (r.choice([(0, 0), (NFTC, 0), (SFTPAY, 5), (self.pay_tok, 0), (LP, 0) if r.random() < 0.5 else (NFTC, 0)]), self.amount())
+        if self.nft[0] == (SFTPAY, 5):
+            self.nft = (self.nft[0], r.choice([1, 2, 7, 100]))
         self.total_nfts = r.randint(1, 4)
         self.lock = (r.choice([1, 2500, 5000, 9999, 10000]), r.choice([self.epoch + 1, 20, 40]), 30)
         lp = LP
@@ -130,6 +132,8 @@ class History:
         if extra and r.random() < 0.05:
             j = r.randrange(len(extra))
             extra[j] = 0
+            if v in LOCKV and j == len(extra) - 1:
+                extra[j] = r.choice([31, 32, 2])   # not a contract / zero address / plain account
             bad = True
         out = self.raw('D %d %d %d %s' % (OWNER, self.round, self.epoch, ' '.join(map(str, args + extra))), True)
         st = parse_block(out)['status']
@@ -251,8 +255,8 @@ class History:
         if ch == 8 and v == 'gt2':
             return self.schedule2(c)
         if ch == 9 and v in NFTV:
-            tok, nonce = r.choice([(0, 0), (NFTC, 0), (SFTPAY, 5), (0, 1), (99, 0), (self.pay_tok, 0)])
-            return self.call(c, ['setNftCost', tok, nonce, r.choice([0, self.amount()])])
+            tok, nonce = r.choice([(0, 0), (NFTC, 0), (SFTPAY, 5), (0, 1), (99, 0), (self.pay_tok, 0), (LP, 0)])
+            return self.call(c, ['setNftCost', tok, nonce, r.choice([0, 3, self.amount()]) if tok != SFTPAY else r.choice([0, 1, 5])])
         if ch == 10:
             return self.do_deposit(exact=False, caller=c)
         return self.probe()
@@ -272,7 +276,7 @@ class History:
         elif ch == 3:
             a = [start, 5000, 5, 1000, 0]
         elif ch == 4:
-            a = [start, 15, 2, 2 ** 63 + 5000 - (1 if r.random() < 0.5 else 0), 1]  # u64 overflow of times*pct
+            a = [start, 16, 2, 2 ** 63 + 4992, 1]  # times*pct overflows u64 and wraps to 9984
         else:
             a = [start, 2500, 3, 2500, r.choice([1, 7])]
         return self.call(c, ['setSchedule1'] + a)
